@@ -19,6 +19,10 @@ type fileSpec struct {
 	N      int    `json:"n"`                // statements
 	TxMode string `json:"txmode,omitempty"` // per-file atlas:txmode directive
 	Ck     bool   `json:"checkpoint,omitempty"` // atlas:checkpoint file
+	// Sep: the line between the directive header and the first statement: "" = empty, "blanks" =
+	// a line holding a space and a tab only (what an editor leaves behind), "crlf" = the whole file
+	// is saved with CR LF line endings.
+	Sep string `json:"sep,omitempty"`
 }
 
 // start is the index of the file a first run on an empty database starts from: the latest checkpoint,
@@ -53,6 +57,9 @@ func files(shape []fileSpec) map[string]string {
 			b.WriteString("-- atlas:txmode " + fs.TxMode + "\n")
 		}
 		if fs.Ck || fs.TxMode != "" {
+			if fs.Sep == "blanks" {
+				b.WriteString(" \t")
+			}
 			b.WriteString("\n")
 		}
 		for i := 0; i < fs.N; i++ {
@@ -63,6 +70,9 @@ func files(shape []fileSpec) map[string]string {
 			fmt.Fprintf(&b, "INSERT INTO journal (sid) VALUES (%d);\n", sid(f, i))
 		}
 		out[fmt.Sprintf("%d_f.sql", f+1)] = b.String()
+		if fs.Sep == "crlf" {
+			out[fmt.Sprintf("%d_f.sql", f+1)] = strings.ReplaceAll(b.String(), "\n", "\r\n")
+		}
 	}
 	return out
 }
@@ -286,6 +296,11 @@ func shapes(tier string) [][]fileSpec {
 		// a per-file directive on a file that is NOT the last one: it must not leak into the files after it.
 		{{N: 1, TxMode: "none"}, {N: 2}},
 		{{N: 1, TxMode: "file"}, {N: 2}},
+		// the header is detached from the statements by a line of blanks.
+		{{N: 1}, {N: 3, TxMode: "file", Sep: "blanks"}},
+		{{N: 2, TxMode: "none", Sep: "blanks"}, {N: 1}},
+		{{N: 1}, {N: 3, TxMode: "file", Sep: "crlf"}},
+		{{N: 1}, {N: 2, Ck: true, Sep: "crlf"}, {N: 1}},
 		// checkpoints: a first run starts at the latest one; an older checkpoint and files follow it.
 		{{N: 1, Ck: true}, {N: 2, Ck: true}, {N: 1}, {N: 1}},
 	}
@@ -302,7 +317,7 @@ func shapes(tier string) [][]fileSpec {
 
 func Run(r *report.Run) {
 	defer clih.Cleanup()
-	r.Rule = "real CLI binary (built with -tags verif) on a real SQLite file: tx-mode {file, all, none} x directory shapes (1-5 files x 1-4 statements, per-file txmode directives, checkpoint files incl. two checkpoints with files after the latest; statements INSERT their own id into a journal table) x every crash point reached by the crash-free run of that shape (stmt.before/after, rev.before/after, commit.before/after, commitall.before/after - discovered by a counting run, so complete by construction) ; the process is killed (exit 137, no deferred code) and the same command is run again; states read by our own SQLite connection; non-trivial = case whose crash point was reached; distinct = (mode, shape, point)"
+	r.Rule = "real CLI binary (built with -tags verif) on a real SQLite file: tx-mode {file, all, none} x directory shapes (1-5 files x 1-4 statements, per-file txmode directives (header detached by an empty line, by a line of blanks, or in a file saved with CR LF line endings), checkpoint files incl. two checkpoints with files after the latest; statements INSERT their own id into a journal table) x every crash point reached by the crash-free run of that shape (stmt.before/after, rev.before/after, commit.before/after, commitall.before/after - discovered by a counting run, so complete by construction) ; the process is killed (exit 137, no deferred code) and the same command is run again; states read by our own SQLite connection; non-trivial = case whose crash point was reached; distinct = (mode, shape, point)"
 	r.Assumptions = []string{
 		"the re-run happens after the advisory lock of the killed process expired (--lock-timeout 1ms and stale lock files removed)",
 		"SQLite's own journal recovery is trusted; the first statement is CREATE TABLE IF NOT EXISTS so that re-executing the in-flight statement in none mode is possible at all",
